@@ -645,12 +645,11 @@ C("_handle_eof_pdu", arg_types={**SELF, "eof_pdu": T.Obj(EofPdu)}, props=("C12",
           ne(o.self._params.checksum_type, ChecksumType.NULL_CHECKSUM), Not_(_ck_matches_after_eof(o))), And_(
           step_is(n.self, STEP.RECV_FILE_DATA_WITH_CHECK_LIMIT_HANDLING), n.self._params.current_check_count == 0,
           opt(n.self._params.check_timer, lambda t: Not_(B(t.expired)), False),
-          # (the unchanged code declares the checksum failure twice here: once in _checksum_verify, once in
-          #  _handle_no_error_eof; both are ignore callbacks for the same condition)
-          len(fault_cbs(n)) >= 1 and all(e["name"] == "ignore_cb" for e in fault_cbs(n)) and And_(
-              *[Eq_(e["cond"], CC.FILE_CHECKSUM_FAILURE) for e in fault_cbs(n)]),
+          # C14: the checksum failure is declared ONCE (finding F23, repaired: it used to be declared by _checksum_verify and
+          # again by _handle_no_error_eof)
+          declared(n, CC.FILE_CHECKSUM_FAILURE, "ignore_cb"),
           len(inds(n, "transaction_finished_indication")) == 0, len(emitted(n)) == 0,
-          eq(_fpar(n.self).delivery_code, DeliveryCode.DATA_INCOMPLETE))), ("C13",)),
+          eq(_fpar(n.self).delivery_code, DeliveryCode.DATA_INCOMPLETE))), ("C13", "C14")),
       Clause("C02.complete_eof_unacked", lambda o, n, r: Implies_(And_(
           Not_(_eof_is_cancel(o)), eq(mode(o.self), UNACK), o.self._params.fp.progress <= o.eof_pdu.file_size,
           Or_(eq(o.self._params.checksum_type, ChecksumType.NULL_CHECKSUM), _ck_matches_after_eof(o))), And_(
